@@ -362,6 +362,12 @@ pub fn build_frame(eh: bool, big: bool, cies: &[CieSpec], fdes: &[FdeSpec], entr
                         if has_l {
                             write_pe(&mut a, c.lsda_enc, f.lsda_raw.unwrap_or(0), c.address_size);
                         }
+                        if f.pad == 3 && c.aug.first() == Some(&b'z') {
+                            // augmentation data a consumer does not know about: the
+                            // length field is what delimits it (these bytes would be a
+                            // DW_CFA_def_cfa_offset if they were taken for instructions)
+                            a.bytes(&[0x0e, 0x10]);
+                        }
                         w.uleb(a.len() as u64);
                         rec.lsda_at = w.len();
                         w.bytes(&a.buf);
